@@ -10,6 +10,7 @@
 -/
 import ChumskyModel.Proofs.Lemmas.Total
 import ChumskyModel.Proofs.Lemmas.Top
+import ChumskyModel.Proofs.Lemmas.Guarded
 set_option linter.unusedSimpArgs false
 namespace Chumsky
 
@@ -55,6 +56,16 @@ theorem c20_terminates (n : Nat) (env : Env) (m : Mode) (g : G) (hm : env.memoOn
     ∃ r final, parseTop n env m g = .result r final :=
   parseTop_terminates n env m g hm hg hn
 
+/-- **termination, guarded recursive grammars** (the whole syntax): neither out of fuel nor a panic, from every state, within
+    `guardedFuel env g = depth g + maxDefDepth · (|input| + 1) + |input| + 1` — the class the property calls "recursion
+    guarded, repeated items consume input" (`DefsGuarded`, `G.mainOk`: well-formed, loops advance, every recursive reference
+    behind a consumed token) -/
+theorem c20_guarded_terminates {cd : Nat → Bool} (n : Nat) (env : Env) (m : Mode) (g : G) (st : St)
+    (hm : env.memoOn = false) (hd : DefsGuarded cd env = true) (hg : g.mainOk cd env.defs.length = true)
+    (hn : guardedFuel env g ≤ n) :
+    run n env m g st ≠ .oof ∧ ∀ w, run n env m g st ≠ .panic w :=
+  run_guarded_terminates n env m g st hm hd hg hn
+
 /-- why `wfTerm` asks the recovery `skip` parser to consume: `skip_until(empty(), ..)` never terminates (the real
     loop in `recovery.rs` has no progress check either) — a hypothesis of the property ("repeated items consume
     input") that has to be read as covering recovery skip parsers -/
@@ -75,6 +86,7 @@ theorem c20_then_iter_assertion_witness :
 #print axioms c20_wf_no_panic
 #print axioms c20_consumes_sound
 #print axioms c20_terminates
+#print axioms c20_guarded_terminates
 #print axioms c20_nonconsuming_skip_hangs
 #print axioms c20_then_iter_assertion_witness
 end Chumsky
